@@ -395,6 +395,23 @@ def custom(run, tier):
     from checks import c02
 
     c02.custom(run, tier, only_passthrough=True)
+    # conforming calls through every feature of the call protocol (methods with the receiver by keyword, *args absorbing extra
+    # positionals next to omitted keyword-only defaults, ...): the decorated function behaves like the undecorated one — it runs
+    import gen_ctx
+    import impl_call  # noqa: F401
+
+    calls = []
+    for _ in range(1500 if tier == "quick" else 20000):
+        c = gen_ctx.gen_ctx(run.rng, perturb=(0,), tuple_p=0.25, ret_p=0.4)
+        line = c.rand_call(run.rng)
+        if run.rng.random() < 0.3 and "\tPD|" not in line and c.params and not c.params[-1].is_tuple and c.params[-1].slots[0].value[0] == "T":
+            items = line.split("\t")
+            k = max(i for i, it in enumerate(items) if it.startswith(("P|", "PE|")))
+            items[k] = "PD|" + items[k].split("|", 1)[1]
+            items[1] = items[1].split(":")[0] + ":pos"
+            line = "\t".join(items + [run.rng.choice(["VA|rest|X;X", "VA|rest|X", "VA|rest|X;X;X"])])
+        calls.append(Case(line, "call", {"ctx": c}))
+    run.observe(calls, lambda case: impl.handle(case.line), lambda case, got: c02.judge(case, got, ""), "a conforming call through the decorated function does not behave like the plain call")
     cs = func_cases(tier, run.rng)
     run.observe(cs, observe_func, expect, "decorated function differs from its undecorated twin")
     run.observe(class_cases(), observe_class, expect, "decorated class differs from its undecorated twin")
